@@ -128,4 +128,12 @@ pub assume_specification[ char::from_u32 ](i: u32) -> (r: Option<char>)
     ensures (r is Some) == (i < 0xD800 || (0xE000 <= i && i <= 0x10FFFF)), r is Some ==> r->0 as u32 == i;
 pub assume_specification[ String::with_capacity ](n: usize) -> (r: String);
 
+// R9: `opt.map_or(false, |tok| tok.kind.is_ascii_whitespace())` written as a method
+// (Verus has no specification for Option::map_or with a closure).
+pub trait OptTokExt { fn is_some_and_ascii_whitespace(self) -> bool; }
+impl OptTokExt for Option<Token> {
+    #[verifier::external_body]
+    fn is_some_and_ascii_whitespace(self) -> bool { unimplemented!() }
+}
+
 pub struct P { pub toks: Lexer }
